@@ -936,12 +936,34 @@ def release_units(F, E):
             continue
         cand = b
         unit = None
+        extra_units = []
         for _ in range(3):
             ib = inline.inlined(F, cand["key"])
             if any(bb is ib or bb["key"] == ib["key"] for (bb, _bi, _t, _w) in free_sites(F, [ib])):
                 unit = ib
                 break
             callers = [c for c in F.body_list if c["kind"] in ("Fn", "AssocFn") and c["key"] != cand["key"] and any(bl["term"]["k"] == "call" and _callee_key(bl["term"]) == cand["key"] for bl in c["blocks"])]
+            # (a call from inside a closure - `self.with_arc(|a| if a.release() { .. })` - belongs to the function that owns the closure)
+            for c in F.body_list:
+                if c["kind"] == "Closure" and any(bl["term"]["k"] == "call" and _callee_key(bl["term"]) == cand["key"] for bl in c["blocks"]):
+                    o, n_ = c.get("owner"), 0
+                    while o and (F.body(o) or {}).get("kind") == "Closure" and n_ < 6:
+                        o, n_ = (F.body(o) or {}).get("owner"), n_ + 1
+                    ob = F.body(o) if o else None
+                    if ob is not None and ob["key"] != cand["key"] and all(ob["key"] != x["key"] for x in callers):
+                        callers.append(ob)
+            if len(callers) > 1 and cand is b:
+                # the verdict of a shared `release() -> bool` is acted upon in several places: each of them is a unit of its own
+                for c in callers:
+                    ib2 = inline.inlined_lending(F, c["key"]) or inline.inlined(F, c["key"])
+                    if ib2 is None or not any(bb is ib2 or bb["key"] == ib2["key"] for (bb, _bi, _t, _w) in free_sites(F, [ib2])) or not dec_gate(F, ib2):
+                        continue
+                    try:
+                        ps2 = E.walk(ib2, record=True)
+                    except Exception:
+                        ps2 = []
+                    extra_units.append((dict(b, key="%s in %s" % (b["key"], c["key"])), ib2, ps2))
+                break
             if len(callers) != 1:
                 break
             cand = callers[0]
@@ -951,7 +973,10 @@ def release_units(F, E):
             paths = E.walk(unit, record=True)
         except Exception:
             paths = []
-        out.append((b, unit, paths))
+        if extra_units:
+            out.extend(extra_units)
+        else:
+            out.append((b, unit, paths))
     F.__dict__["_release_units"] = out
     return out
 
